@@ -218,6 +218,11 @@ def fixrot_case(draw):
         "masses": [draw(st.one_of(fl(1, 200), st.sampled_from([1.0, 200.0]))) for _ in range(n)],
         "momenta": [[draw(st.one_of(fl(-10, 10), st.just(0.0))) for _ in range(3)] for _ in range(n)],
         "via": draw(st.sampled_from(["direct", "set_momenta"])),
+        # the same constraint object was used before on another geometry / other masses of the same Atoms object
+        # (positions then replaced the ways users and quansino's own restore paths do it)
+        "prior": draw(st.sampled_from([None, None, "assign", "inplace", "set_positions", "set_positions_unconstrained", "translate_rotate"])),
+        "prior_pos": [[draw(fl(-3, 3)) for _ in range(3)] for _ in range(n)],
+        "prior_masses": draw(st.one_of(st.none(), st.lists(fl(1, 200), min_size=n, max_size=n))),
     }
 
 
@@ -236,8 +241,35 @@ def run_fixrot(case):
     m = np.array(case["masses"], dtype=float)
     p = np.array(case["momenta"], dtype=float)
     n = len(m)
-    atoms = Atoms("H" * n, positions=pos)
-    atoms.set_masses(m)
+    prior = case.get("prior")
+    fixrot = FixRot()
+    if prior:
+        if prior == "translate_rotate":
+            start = (pos - np.array(case["shift"])) @ _rotm([0.3, -1.1, 2.0]) + 1.5
+        else:
+            start = np.array(case["prior_pos"], dtype=float)
+        atoms = Atoms("H" * n, positions=start)
+        atoms.set_masses(case.get("prior_masses") or m)
+        try:
+            if case["via"] == "direct":
+                fixrot.adjust_momenta(atoms, p.copy())
+            else:
+                atoms.set_constraint(fixrot)
+                atoms.set_momenta(p.copy())
+        except Exception:
+            pass  # a degenerate earlier geometry is not what is judged
+        if prior in ("assign", "translate_rotate"):
+            atoms.positions = pos.copy()
+        elif prior == "inplace":
+            atoms.positions[:] = pos
+        elif prior == "set_positions":
+            atoms.set_positions(pos.copy())
+        else:
+            atoms.set_positions(pos.copy(), apply_constraint=False)
+        atoms.set_masses(m)
+    else:
+        atoms = Atoms("H" * n, positions=pos)
+        atoms.set_masses(m)
     com = (m[:, None] * pos).sum(0) / m.sum()
     r = pos - com
     inertia = np.zeros((3, 3))
@@ -245,7 +277,7 @@ def run_fixrot(case):
         inertia += m[i] * (np.dot(r[i], r[i]) * np.eye(3) - np.outer(r[i], r[i]))
     ev = np.linalg.eigvalsh(inertia)
     cond = ev[-1] / ev[0] if ev[0] > 0 else np.inf
-    labels = ["fixrot:" + case["via"]]
+    labels = ["fixrot:" + case["via"]] + (["fixrot:reused-after-" + prior] if prior else [])
     if not cond < 1e8:
         return {"labels": labels + ["degenerate"], "nontrivial": False, "violation": None}
     l_scale = float(np.sum(np.linalg.norm(np.cross(r, p), axis=1)))
@@ -254,9 +286,9 @@ def run_fixrot(case):
     try:
         if case["via"] == "direct":
             out = p.copy()
-            FixRot().adjust_momenta(atoms, out)
+            fixrot.adjust_momenta(atoms, out)
         else:
-            atoms.set_constraint(FixRot())
+            atoms.set_constraint(fixrot)
             atoms.set_momenta(p.copy())
             out = atoms.get_momenta()
     except Exception as exc:
@@ -266,7 +298,7 @@ def run_fixrot(case):
     tol_l = 1e-11 * cond * max(l_scale, 1e-30) + 1e-300
     nontrivial = np.linalg.norm(l0) > 1e-6 * max(l_scale, 1e-30)
     res = {"labels": labels + (["L0>0"] if nontrivial else ["L0~0"]), "nontrivial": bool(nontrivial),
-           "key": f"{n}|{case['via']}|{round(float(np.log10(cond)), 1)}|{round(float(np.linalg.norm(l0)), 2)}", "violation": None}
+           "key": f"{n}|{case['via']}|{prior}|{round(float(np.log10(cond)), 1)}|{round(float(np.linalg.norm(l0)), 2)}", "violation": None}
     if not np.all(np.isfinite(out)):
         res["violation"] = {"kind": "fixrot:non-finite", "detail": "adjusted momenta contain NaN/inf"}
     elif np.linalg.norm(l1) > tol_l:
